@@ -160,6 +160,15 @@ func IsConcrete(v any) bool { return true }
 // the engine: 0 free, 1 read-locked, 2 write-locked.  Natively unknown (-1).
 func Held(mu any) int { return -1 }
 
+// Guard declares that state (pointer to a struct or field, map, slice; the
+// fields and maps it directly contains included) is protected by the mutex mu:
+// under the engine every read then requires mu to be read- or write-locked by
+// the executing thread and every write requires the write lock.
+func Guard(state any, mu any, label string) {}
+
+// GuardHits is the number of guarded accesses checked so far.
+func GuardHits() int { return 0 }
+
 func Goroutines() int { return 0 }
 
 func RunGoroutine(i int) {}
